@@ -192,17 +192,23 @@ func c21IsFullFlag(v ssa.Value, depth int) bool {
 // later request carrying a revoked token is accepted from the cache (and each
 // hit renews the entry).
 func c21FailedLookupNotCached(w *World, r *Report) {
-	r.Rule("R-C21-7", "in tokens.IsBlacklisted and tokens.IsIDBlacklisted no caches.Add on the revocation cache is reachable from the store read once the edges 'the read error is nil' and 'the read error is ErrNotFound' are removed", 2)
+	c21FailedLookup(w, r, "R-C21-7", []string{"IsBlacklisted", "IsIDBlacklisted"}, 2)
+}
+
+// c21FailedLookup is the analysis of R-C21-7; C22 runs it for the JWT path
+// (IsIDBlacklisted) as R-C22-9.
+func c21FailedLookup(w *World, r *Report, rule string, names []string, floor int) {
+	r.Rule(rule, "in tokens."+strings.Join(names, " and tokens.")+" no caches.Add on the revocation cache (called directly, or from a deferred function when the function returns) is reachable from the store read once the edges 'the read error is nil' and 'the read error is ErrNotFound' are removed", floor)
 
 	tp := w.pkg("internal/language/tokens")
 	if tp == nil {
 		return
 	}
 
-	for _, name := range []string{"IsBlacklisted", "IsIDBlacklisted"} {
+	for _, name := range names {
 		fn := w.ssaFunc(tp, name)
 		if fn == nil {
-			r.Anchor("R-C21-7", "tokens."+name)
+			r.Anchor(rule, "tokens."+name)
 
 			continue
 		}
@@ -218,7 +224,7 @@ func c21FailedLookupNotCached(w *World, r *Report) {
 		key := "tokens." + name + "|failed lookup not cached"
 
 		if read == nil {
-			r.Anchor("R-C21-7", "the store read in tokens."+name)
+			r.Anchor(rule, "the store read in tokens."+name)
 
 			continue
 		}
@@ -264,21 +270,42 @@ func c21FailedLookupNotCached(w *World, r *Report) {
 		})
 
 		if len(cuts) == 0 {
-			r.Violate("R-C21-7", key, w.pos(read.Pos()), "the error of the revocation store read is never tested")
+			r.Violate(rule, key, w.pos(read.Pos()), "the error of the revocation store read is never tested")
 
 			continue
 		}
 
-		hit := pathAvoiding(read, cuts, func(ssa.Instruction) bool { return false }, func(i ssa.Instruction) bool {
+		isAdd := func(i ssa.Instruction) bool {
 			c, ok := i.(*ssa.Call)
 
 			return ok && callID(c.Common()) == "internal/caches.Add"
+		}
+
+		// a deferred function that fills the cache runs at every return
+		deferredAdd := false
+
+		for _, d := range deferredCalls(fn) {
+			if g := calleeFunction(d.Common()); g != nil {
+				allInstrs(g, func(in ssa.Instruction) {
+					if isAdd(in) {
+						deferredAdd = true
+					}
+				})
+			}
+		}
+
+		hit := pathAvoiding(read, cuts, func(ssa.Instruction) bool { return false }, func(i ssa.Instruction) bool {
+			if _, isRun := i.(*ssa.RunDefers); isRun && deferredAdd {
+				return true
+			}
+
+			return isAdd(i)
 		})
 
 		if hit != nil {
-			r.Violate("R-C21-7", key, w.pos(hit.Pos()), "the revocation cache is filled on a path where the store read failed (neither answered nor reported 'not found'): the failed lookup's request is refused, but the cached 'not revoked' entry decides every later request for that token, and each hit renews it")
+			r.Violate(rule, key, w.pos(read.Pos()), "the revocation cache is filled on a path where the store read failed (neither answered nor reported 'not found'): the failed lookup's request is refused, but the cached 'not revoked' entry decides every later request for that token, and each hit renews it")
 		} else {
-			r.Discharge("R-C21-7", key, w.pos(read.Pos()), "cache fills only behind a nil or not-found read error")
+			r.Discharge(rule, key, w.pos(read.Pos()), "cache fills only behind a nil or not-found read error")
 		}
 	}
 }
